@@ -7,6 +7,7 @@ pub mod c08;
 pub mod explore;
 pub mod honest;
 pub mod preproc;
+pub mod srv;
 
 use crate::framework::Check;
 
@@ -24,6 +25,11 @@ pub fn all() -> Vec<Box<dyn Check>> {
         Box::new(preproc::C10),
         Box::new(preproc::C11),
         Box::new(honest::C12),
+        Box::new(srv::C13),
+        Box::new(srv::C14),
+        Box::new(srv::C15),
+        Box::new(srv::C16),
+        Box::new(srv::C17),
         Box::new(explore::C18),
         Box::new(explore::C19),
     ]
